@@ -69,17 +69,22 @@ CHECKS.update({
 CHECKS["C15"] = dict(
     engine="spec/uijson", category="model_checking",
     technique="TLA+ spec UiJsonValidate.tla: declared layer (RequiresValue from the documented groupOptional > dependency > optional "
-              "hierarchy; Accepts from the constraints a form declares) vs operational layer shaped like the code (rule table, "
-              "validator chain, promotion, one_of bookkeeping, enforcer pool, Parameter.value, UIJson.validate) as a bounded state "
-              "machine over one validator/parameter/form object; TLC checks verdict = Accepts(current form, value) and "
-              "rejected-leaves-unchanged on every transition; every exported call and a path cover of the call-sequence graphs are "
-              "replayed on real InputFile / InputValidation / Parameter / FormParameter / EnforcerPool / UIJson objects",
-    text="Exhaustive within the bounds: all 180 canonical switch combinations x 11 form kinds x {None, good, bad} x 5 entry points, "
-         "all value kinds per form kind, all call sequences of the path cover up to depth 3 (quick) / 4-5 (thorough) on both APIs; "
+              "hierarchy; Accepts = type, choice list, well-formed identifier, membership of the parent object / parent group / "
+              "workspace, property-group type, item-wise rule for multiSelect lists; AcceptsNew for the rules a Parameter declares) "
+              "vs operational layer shaped like the code (rule table, validator chain, promotion incl. lists, one_of bookkeeping, "
+              "enforcer pool, Parameter.value, form members, UIJson.validate) as a bounded state machine over one validator / "
+              "parameter / form object, five targets; TLC checks verdict = Accepts(current form, value) and "
+              "rejected-leaves-unchanged on every transition plus the hierarchy laws; every exported call and a path cover of the "
+              "call-sequence graphs (for every subset of seven named deviations) are replayed on real InputFile / InputValidation / "
+              "Parameter / FormParameter / EnforcerPool / UIJson objects over a real workspace",
+    text="Exhaustive within the bounds: 340 canonical switch combinations x 13 form kinds x {None, good, bad} x 5 entry points; "
+         "every value kind per form kind incl. empty string, lists, identifiers of members / strangers / nothing / another workspace; "
+         "the same calls after another multiSelect ui.json was loaded in the process; 14 parameter kinds x 3 wrappers; member "
+         "assignments of a FormParameter; all call sequences of the path cover up to depth 3 (quick) / 4-5 (thorough) on both APIs; "
          "every exported call is replayed (no sampling). An answer is attributed to a recorded finding only if it equals exactly the "
          "prediction of that named deviation of the spec.",
     design_ref="DESIGN.md section 6 (C15); notes/C15.md",
-    note="Verdicts only (any exception = rejected). optional:false, list/multiSelect values, property-group uuids on plain data forms "
+    note="Verdicts only (any exception = rejected). optional:false, multiSelect data / group forms (only the object selector is enumerated), property-group uuids on plain data forms "
          "and the new API's missing optional hierarchy are documented ambiguities outside the model. Trusted: TLC, harness/uijson_impl.py.",
 )
 
@@ -108,15 +113,18 @@ CHECKS["C13"] = dict(
     technique="TLA+ specs ExtentSelect.tla / ExtentGrid.tla / ExtentBox.tla (exact integer-rational geometry) define InBox, Mask and "
               "CopyFromExtent for Points, Curve, Surface, Drillhole, ContainerGroup, Grid2D, BlockModel, Octree, "
               "utils.mask_by_extent and Data.mask_by_extent; TLC enumerates every (object, box) configuration of each cfg, checks the "
-              "selection invariants and named-deviation negative controls and prints the expected mask/copy per case; the harness "
-              "replays every case through mask_by_extent and one copy_from_extent per distinct selection",
+              "selection invariants (incl. StoredEqualsLive) and named-deviation negative controls and prints the expected mask/copy per "
+              "case; the harness replays every case through mask_by_extent (object, utils, Data) and one copy_from_extent per distinct "
+              "selection, and compares masks positionally / by cell-centre coordinates and copies - both the live entity and the copy "
+              "as stored in the file, read back with Workspace.fetch_values / fetch_array_attribute - as coordinate->value multisets",
     text="Exhaustive within the bounds of the cfg files: every vertex set (<=3-4 vertices on a 3x3x2 lattice), every cell set, "
          "every half-unit box (degenerate, face-on-point, touching, disjoint), both inverse flags, 2-D and 3-D extents; grids up to "
          "3x3 / 2x2x2, 5 octree layouts, 13 exact rotation/dip angles. The implementation is held to the printed outcome of every "
          "enumerated case (masks positionally / by cell-centre coordinates, copies as coordinate->value multisets).",
     design_ref="DESIGN.md section 5 (C13); notes/C13.md",
     note="Small-scope and exact-rational: off-lattice coordinates, irrational angles and faces closer than 1/10 unit to a rotated "
-         "centre are not decided; float data only; None-vs-empty and inverse-on-miss follow the code where the property allows both.",
+         "centre are not decided; float data only; None-vs-empty and inverse-on-miss follow the code where the property allows both; "
+         "the stored view is read within the same session (no close/re-open); stored grid attributes are not compared.",
 )
 CHECKS["C14"] = dict(
     engine="spec/uijson", category="model_checking",
@@ -154,8 +162,12 @@ CHECKS["C18"] = dict(
               "every enumerated survey table and every history of setters, queries and add_data calls within the bounds is replayed "
               "through Drillhole.desurvey / add_data and compared with the positions and states TLC computed (live and re-opened)",
     text="Exhaustive within the bounds for desurvey (all tables of <=3 rows over integer depths and 5-14 rational directions, "
-         "half-integer query grid) and for setter/query histories of length 3 (4); add_data histories of 2 calls exhaustively in the "
-         "thorough tier (seeded sample in quick), 3 calls by seeded sample.",
+         "half-integer query grid) and for setter/query histories of length 3 (4); add_data histories: 2-call histories with "
+         "text/float values and two tolerances, 3-set histories grouped into 1-3 calls, 2-set histories with the call's tolerance "
+         "given as argument or as per-set keys and with a property group, and histories with one Drillhole.copy() - exhaustively in "
+         "the thorough tier, by shape-prioritised seeded samples in quick (every depth->interval->depth history, interval-then-depth "
+         "and depth re-use inside one call, differing own tolerances in one call, property-group calls that re-sort, and depth data "
+         "added to a copy are always present).",
     design_ref="DESIGN.md section 5 (C18); notes/C18.md",
     note="Decides C18 only for directions with rational components, integer station depths, grid query depths and a small tick set "
          "with tolerances 0.001/0.01; arbitrary real azimuth/dip and tolerance-boundary cases are residue. 'Last direction' is read "
@@ -165,10 +177,12 @@ CHECKS["C18"] = dict(
 CHECKS["C07"] = dict(
     engine="spec/align", category="model_checking",
     technique="TLA+ state machine VertexCellAlign.tla of one Points/Curve/Surface object (AddData, SetValues, RemoveVertices / "
-              "RemoveCells with every index sequence, masked copies, Reopen; removal arithmetic written line by line after "
-              "cell_object.py) with token-keyed ghost variables; TLC checks the alignment invariants and exports the state graph "
-              "with the predictions of named as-built deviations; a tour cover of every transition is replayed on real .geoh5 files "
-              "and outcome, vertices, cells and all children values are compared after every action (live and re-opened)",
+              "RemoveCells with every index sequence and clear_cache, masked object copies by vertex and by cell mask, masked "
+              "Data.copy onto a twin object, copy(clear_cache=True), Curve.parts reads, Reopen; removal arithmetic written line by "
+              "line after cell_object.py) with token-keyed ghost variables; TLC checks the alignment invariants and exports the state "
+              "graph with the predictions of four named as-built deviations; a tour cover of every transition is replayed on real "
+              ".geoh5 files (source dtypes, index containers and data kinds rotating) and outcome, vertices, cells and all children "
+              "values are compared after every action (live and from a freshly opened workspace)",
     text="Exhaustive over the bounded state graphs of spec/align/*.cfg (TLC); every exported transition replayed into geoh5py at "
          "least once (quick: all; thorough: all but seeded path samples of the three largest graphs). A failing operation is "
          "required to leave a mutually consistent state, not the pre-state.",
